@@ -941,7 +941,7 @@ Referable(f) == LET P == Pool(FT[f].ts) IN
                 ELSE P
 \* (steering of the recursion walk: user types are declared with a function, the type tokens are for what refers to them)
 TypePool(f) == IF Pools = "rec" /\ f = "Type" THEN {"-"}
-               ELSE IF Pools = "rec" /\ f \in {"Payload", "StreamingPayload", "Result", "StreamingResult"} THEN Referable(f) \ {"nT1", "nT2"}     \* (Payload("T1") is a description)
+               ELSE IF Pools = "rec" /\ f \in {"Payload", "StreamingPayload", "Result", "StreamingResult"} THEN Referable(f) \ {"nT1", "nT2"}     \* (Payload("T1") is rejected: a payload is not named by a string)
                ELSE Referable(f)
 ChooseT == /\ pc = "t" /\ \E t \in TypePool(cur.f) : cur' = [cur EXCEPT !.t = t]
            /\ pc' = "c" /\ UNCHANGED <<nodes, stack, mode, nmis, outcome, later>>
